@@ -98,6 +98,34 @@ InvEditResolved ==
       p == SpecParse(edited, NSides, L)
   IN p.some /\ ConflictHunks(p.hunks) = <<Hunk>> /\ p.hunks[1] = << <<99>> \o EOL >>
 
+(* C06 scope self-test: in a materialised file  Pre / conflict / Post , an    *)
+(* edit (delete, or change of the text after the marker run) of ANY marker   *)
+(* or header line - start, end, side, base, the "%%%%%%% diff from:" line    *)
+(* and its "\\\\\\\\\\\\\\ to:" continuation, Git's ||||||| and ======= - is out of   *)
+(* scope, while replacing a line of the resolved text around it is in scope. *)
+DeleteLine(lines, i) == CatAll(SubSeq(lines, 1, i - 1) \o SubSeq(lines, i + 1, Len(lines)))
+ReplaceLine(lines, i, x) == CatAll([lines EXCEPT ![i] = x])
+Relabel(line) ==      \* same marker run, different trailing text, same terminator
+  LET n == Run(line, 1) IN SubSeq(line, 1, n) \o <<SP, 122, 122>> \o (IF Last(line) = LF THEN <<LF>> ELSE <<>>)
+InvEditScope ==
+  (\A k \in 1..NumTerms : Closed(st[k])) =>
+    LET hs == << <<Pre>>, Hunk, <<Post>> >>
+        L == TheLen(hs)
+        mh == [res |-> FALSE, content |-> <<>>, hunks |-> hs]
+    IN \A style \in Styles :
+         LET mat == SpecMaterialize(hs, style, 0, L, <<SP, 120, SP, 49>>, TheEol(hs))
+             lines == Lines(mat)
+             first == 2                     \* Pre is one line
+             last == Len(lines) - 1         \* Post is one line
+         IN /\ MarkerKind(lines[first], L) = ChStart /\ MarkerKind(lines[last], L) = ChEnd
+            /\ \A i \in first..last :
+                 MarkerKind(lines[i], L) # 0 =>
+                   /\ ~EditInScope(mh, mat, DeleteLine(lines, i), NSides, L)
+                   /\ ~EditInScope(mh, mat, ReplaceLine(lines, i, Relabel(lines[i])), NSides, L)
+            /\ EditInScope(mh, mat, ReplaceLine(lines, 1, <<99>> \o EOL), NSides, L)
+            /\ EditInScope(mh, mat, ReplaceLine(lines, Len(lines), <<99>> \o EOL), NSides, L)
+            /\ EditInScope(mh, mat, mat \o <<99>> \o EOL, NSides, L)
+
 (* the reference marker length is longer than anything the content can show *)
 InvMarkerLen ==
   LET terms == [k \in 1..NumTerms |-> Hunk[k]] IN
